@@ -14,14 +14,17 @@
 package main
 
 import (
+	"bufio"
 	"bytes"
 	"context"
 	"encoding/hex"
+	"encoding/json"
 	"fmt"
 	"io/ioutil"
 	"math/rand"
 	"net/http"
 	"os"
+	"os/exec"
 	"sort"
 	"strings"
 	"sync"
@@ -561,7 +564,97 @@ func (r *runner) run(sc kit.Scenario, rng *rand.Rand) (evs []kit.Ev, err error) 
 	return evs, nil
 }
 
+// runChunks (parent): the node's own goroutines are not the driver's to guard -- a panic there (e.g. a late
+// chunk-info response for a file that was just deleted) kills the process. Scenarios therefore run in child
+// processes, a few hundred each; a chunk whose child died is run again (such crashes depend on timing), and
+// only a chunk that dies three times makes the run fail (exit 2, no verdict).
+func runChunks(scs []kit.Scenario, out *kit.Out) error {
+	const chunk = 250
+	for lo := 0; lo < len(scs); lo += chunk {
+		hi := lo + chunk
+		if hi > len(scs) {
+			hi = len(scs)
+		}
+		dir, err := ioutil.TempDir("", "verif-lschunk")
+		if err != nil {
+			return err
+		}
+		var buf bytes.Buffer
+		for _, sc := range scs[lo:hi] {
+			b, _ := json.Marshal(sc)
+			buf.Write(b)
+			buf.WriteByte('\n')
+		}
+		if err := ioutil.WriteFile(dir+"/scn.ndjson", buf.Bytes(), 0600); err != nil {
+			return err
+		}
+		var lastErr string
+		ok := false
+		for attempt := 1; attempt <= 3 && !ok; attempt++ {
+			cmd := exec.Command(os.Args[0], "child", dir+"/scn.ndjson", dir+"/trace.ndjson")
+			var stderr bytes.Buffer
+			cmd.Stderr = &stderr
+			if err := cmd.Run(); err != nil {
+				tail := stderr.String()
+				if len(tail) > 1500 {
+					tail = tail[len(tail)-1500:]
+				}
+				first := stderr.String()
+				if len(first) > 600 {
+					first = first[:600]
+				}
+				lastErr = first + " ... " + tail
+				fmt.Fprintf(os.Stderr, "NOTE: node process died while running scenarios %d..%d (attempt %d): %s\n", lo+1, hi, attempt, first)
+				continue
+			}
+			os.Stderr.Write(stderr.Bytes())
+			ok = true
+		}
+		if !ok {
+			os.RemoveAll(dir)
+			return fmt.Errorf("child process died three times on scenarios %d..%d: %s", lo+1, hi, lastErr)
+		}
+		f, err := os.Open(dir + "/trace.ndjson")
+		if err != nil {
+			return err
+		}
+		rd := bufio.NewReaderSize(f, 1<<20)
+		for {
+			line, err := rd.ReadBytes('\n')
+			if len(line) > 1 {
+				var e map[string]interface{}
+				if je := json.Unmarshal(line, &e); je != nil {
+					return je
+				}
+				scn := int(e["scn"].(float64))
+				op, _ := e["op"].(string)
+				delete(e, "scn")
+				delete(e, "i")
+				if op == "reset" {
+					delete(e, "op")
+					out.Begin(scn, kit.Ev(e))
+				} else {
+					out.Emit(kit.Ev(e))
+				}
+			}
+			if err != nil {
+				break
+			}
+		}
+		f.Close()
+		os.RemoveAll(dir)
+	}
+	return nil
+}
+
 func main() {
+	if len(os.Args) >= 2 && os.Args[1] == "exec" {
+		kit.Main(runChunks)
+		return
+	}
+	if len(os.Args) >= 2 && os.Args[1] == "child" {
+		os.Args[1] = "exec"
+	}
 	kit.Main(func(scs []kit.Scenario, out *kit.Out) error {
 		logger := logging.New(ioutil.Discard, 0)
 		localstore.VerifSetNow(func() int64 { return atomic.AddInt64(&clock, 1) })
